@@ -4,6 +4,7 @@ import (
 	"fmt"
 	"go/token"
 	"go/types"
+	"strconv"
 	"strings"
 
 	"golang.org/x/tools/go/ssa"
@@ -164,6 +165,9 @@ func C18(ctx *core.Ctx, r *core.Report) {
 
 	c18CallbackNilConsistency(ctx, r)
 	c18SliceIndexPosition(ctx, r)
+	c18CacheDroppedOnMutation(ctx, r)
+	// "each entry is found under the key its key leaves hold"
+	c17KeyMatchConjunction(ctx, r)
 }
 
 // isFieldLoadOf: v is a load of recv.<field>.
@@ -338,4 +342,109 @@ func c18SliceIndexPosition(ctx *core.Ctx, r *core.Report) {
 		}
 	})
 	r.Ob("slice-index-position", "nodeutil.Reflect.buildKeys", ctx.Pos(bk.Pos()), stores && sortCall != nil, "positions must be recorded before the index is sorted")
+}
+
+// c18CacheDroppedOnMutation: the reflection list nodes keep a lazily built
+// index of their container (a captured slice variable that is rebuilt when it
+// is nil). Whenever the same closure changes the container (stores a result of
+// reflect.Append/AppendSlice into the captured reflect.Value, or calls
+// SetMapIndex on it) the index is set to nil on every path from that change to
+// a return: an index that survives the change holds nodes and positions of the
+// container as it was.
+func c18CacheDroppedOnMutation(ctx *core.Ctx, r *core.Report) {
+	n := 0
+	for _, f := range ctx.RepoFuncs() {
+		if core.FnPkgPath(f) != core.Full("nodeutil") || f.Parent() == nil {
+			continue
+		}
+		// lazily built caches: captured *[]T compared with nil
+		var caches []*ssa.FreeVar
+		for _, fv := range f.FreeVars {
+			pt, ok := fv.Type().(*types.Pointer)
+			if !ok {
+				continue
+			}
+			if _, isSlice := pt.Elem().Underlying().(*types.Slice); !isSlice {
+				continue
+			}
+			nilTested := false
+			for _, ref := range *fv.Referrers() {
+				if u, ok := ref.(*ssa.UnOp); ok {
+					for _, rr := range *u.Referrers() {
+						if b, ok := rr.(*ssa.BinOp); ok && (core.IsNilConst(b.X) || core.IsNilConst(b.Y)) {
+							nilTested = true
+						}
+					}
+				}
+			}
+			if nilTested {
+				caches = append(caches, fv)
+			}
+		}
+		if len(caches) == 0 {
+			continue
+		}
+		isReflectValueCell := func(v ssa.Value) bool {
+			fv, ok := v.(*ssa.FreeVar)
+			if !ok {
+				return false
+			}
+			pt, ok := fv.Type().(*types.Pointer)
+			return ok && core.TypeName(pt.Elem()) == "reflect.Value"
+		}
+		var muts []ssa.Instruction
+		core.Instrs(f, func(_ *ssa.BasicBlock, in ssa.Instruction) {
+			switch x := in.(type) {
+			case *ssa.Store:
+				if isReflectValueCell(x.Addr) {
+					if c, ok := x.Val.(*ssa.Call); ok {
+						if cal := core.StaticCallee(c); cal != nil && (core.FnName(cal) == "reflect.Append" || core.FnName(cal) == "reflect.AppendSlice") {
+							muts = append(muts, in)
+						}
+					}
+				}
+			case *ssa.Call:
+				if cal := core.StaticCallee(x); cal != nil && core.FnName(cal) == "reflect.Value.SetMapIndex" {
+					if u, ok := x.Common().Args[0].(*ssa.UnOp); ok && isReflectValueCell(u.X) {
+						muts = append(muts, in)
+					}
+				}
+			}
+		})
+		for _, cache := range caches {
+			isDrop := func(in ssa.Instruction) bool {
+				st, ok := in.(*ssa.Store)
+				return ok && st.Addr == ssa.Value(cache) && core.IsNilConst(st.Val)
+			}
+			for i, m := range muts {
+				n++
+				key := core.FnName(f) + "/" + cache.Name() + "#" + strconv.Itoa(i+1)
+				// search forward from m for a return not preceded by a drop
+				escaped := ""
+				seen := map[*ssa.BasicBlock]bool{}
+				var walk func(b *ssa.BasicBlock, from int)
+				walk = func(b *ssa.BasicBlock, from int) {
+					for _, in := range b.Instrs[from:] {
+						if isDrop(in) {
+							return
+						}
+						if ret, ok := in.(*ssa.Return); ok {
+							escaped = ctx.Pos(ret.Pos())
+							return
+						}
+					}
+					for _, s := range b.Succs {
+						if !seen[s] {
+							seen[s] = true
+							walk(s, 0)
+						}
+					}
+				}
+				walk(m.Block(), instrIndex(m)+1)
+				r.Ob("cache-dropped-on-mutation", key, ctx.Pos(m.Pos()), escaped == "",
+					"the container is changed here and the closure returns ("+escaped+") with its cached index `"+cache.Name()+"` still in place: later lookups and deletes use nodes and positions of the container as it was before the change")
+			}
+		}
+	}
+	r.Floor("cache-dropped-on-mutation", n, 4)
 }
